@@ -63,7 +63,7 @@ def prune_cache(keep=10, min_age_s=3600):
     except OSError:
         pass
 
-def build_harness(kind='asan', std='c++17', extra_flags=(), srcdir=None, harness='driver.cpp', opt='-O0'):
+def build_harness(kind='asan', std='c++20', extra_flags=(), srcdir=None, harness='driver.cpp', opt='-O0'):
     """Builds harness/<harness> + the library sources of the CURRENT tree. Returns (path | None, log).
     kind: asan (ASan+UBSan, asserts on) | plain | tsan"""
     inc = os.path.join(srcdir or REPO, 'include')
